@@ -148,11 +148,14 @@ def r03_1_2(ctx, run, rule1='R03.1', rule2='R03.2'):
                     tmpl = [x for x in subterms(t) if x[0] == 'const' and (isinstance(x[1], tuple) or isinstance(x[1], str))]
                     has_u = any((isinstance(x[1], tuple) and b'\\u' in bytes(v for v in x[1] if isinstance(v, int) and v < 256)) or (isinstance(x[1], str) and '\\u' in x[1]) for x in tmpl)
                     hexarg = any(is_call(x, 'Argument::new_lower_hex', 'Argument::new_upper_hex') and x[2] and deref_all(x[2][0]) == atom for x in subterms(t))
+                    decarg = any(is_call(x, 'Argument::new_display', 'Argument::new_debug', 'Argument::new_octal', 'Argument::new_binary') and x[2] and deref_all(x[2][0]) == atom for x in subterms(t))
                     if has_u and hexarg:
                         toks += list('\\u00') + ['H', 'L']
+                    elif has_u and decarg and not hexarg:
+                        toks += list('\\u') + ['D']
                     else:
                         toks.append('?')
-            if all(len(x) == 1 and x not in 'HL?' or x in ('H', 'L', '?') for x in toks) and not any(x in ('H', 'L', '?') for x in toks):
+            if all(len(x) == 1 and x not in 'HLD?' or x in ('H', 'L', 'D', '?') for x in toks) and not any(x in ('H', 'L', 'D', '?') for x in toks):
                 sj = ''.join(toks)
                 ok = False
                 if len(rng.ivs) == 1 and rng.lo() == rng.hi():
@@ -162,6 +165,9 @@ def r03_1_2(ctx, run, rule1='R03.1', rule2='R03.2'):
                     string_problems.append(f'bytes {rng} are written as the constant {sj!r}')
             elif toks == list('\\u00') + ['H', 'L'] and rng.hi() <= 0xFF:
                 pass
+            elif 'D' in toks:
+                string_problems.append(f'bytes {rng}: the byte is formatted after `\\u` with a decimal (or other non-hexadecimal) format, so the four digits are not its code point in hex '
+                                       '(0x0b is written \\u0011, which denotes U+0011)')
             elif '?' in toks:
                 string_unknown.append(f'bytes {rng}: the escape is assembled in a way this rule does not read')
             else:
